@@ -38,11 +38,14 @@ def src_and_req(named, names, fs, enum, item_attr=""):
     body = (" { " + ", ".join(fields_src) + " }") if named else ("(" + ", ".join(fields_src) + ")")
     if not fs and not named:
         body = "()"
-    if enum:
+    if enum == "ignored":
+        # an ignored variant: no source, whatever its fields carry (added after seed C09-j)
+        src = f"enum E {{ #[error(ignore)] V{body}, Other }}"
+    elif enum:
         src = f"enum E {{ V{body}, Other }}"
     else:
         src = f"{item_attr}struct S{body}" + ("" if named else ";")
-    return src, "es " + ("1" if named else "0") + " 1 " + (";".join(req) if req else "-")
+    return src, "es " + ("1" if named else "0") + " 1 " + (";".join(req) if req else "-") + (" vi" if enum == "ignored" else "")
 
 
 def impl_decision(ans, named, names, enum):
@@ -145,6 +148,11 @@ def behaviour(res, rng, cases, tier):
     pick = rng.sample(okc, 140 if tier == "quick" else 1500)
     # make sure shapes with an ignored field in front of the source are present
     pick += [c for c in okc if c["oracle"][1] not in (None, 0) and any(a[0][0] == "i" for a in c["fs"][:c["oracle"][1]])][:40]
+    # ignored variants whose fields would select a source if the variant were not ignored: `source()` is `None`
+    def would_have_source(c):
+        o = oracle(c["named"], c["names"], c["fs"])
+        return o[0] == "ok" and o[1] is not None and c["fs"][o[1]][1][0] == "0" and (o[2] is None or c["fs"][o[2]][1][0] == "1")
+    pick += rng.sample([c for c in cases if c["enum"] == "ignored" and would_have_source(c)], 40 if tier == "quick" else 400)
     cf = C.CaseFile(PRELUDE)
     meta = {}
     for n, c in enumerate(pick):
@@ -204,16 +212,21 @@ def run(tier):
         inproc = C.cargo_build_inproc()
         lean_ok, _ = C.lake_build(["Dm.Props.C09", "dmdriver"])
         cases = []
-        for (named, names, fs) in shapes(tier, rng):
+        all_shapes = shapes(tier, rng)
+        for (named, names, fs) in all_shapes:
             for enum in (False, True):
                 src, req = src_and_req(named, names, fs, enum)
                 cases.append({"named": named, "names": names, "fs": fs, "enum": enum, "src": src, "req": req})
+        # ignored variants: every shape up to two fields, a sample of the three-field ones
+        for (named, names, fs) in [s_ for s_ in all_shapes if len(s_[1]) <= 2] + rng.sample([s_ for s_ in all_shapes if len(s_[1]) == 3], 2000 if tier == "quick" else 20000):
+            src, req = src_and_req(named, names, fs, "ignored")
+            cases.append({"named": named, "names": names, "fs": fs, "enum": "ignored", "src": src, "req": req})
         impl = C.drive(inproc, [f"expand Error {C.hexs(c['src'])}" for c in cases])
         model = C.drive_lean([c["req"] for c in cases]) if lean_ok else [None] * len(cases)
         n_src = n_err = 0
         for c, ia, ma in zip(cases, impl, model):
             c["impl"] = impl_decision(ia, c["named"], c["names"], c["enum"])
-            o = oracle(c["named"], c["names"], c["fs"])
+            o = ("ok", None, None) if c["enum"] == "ignored" else oracle(c["named"], c["names"], c["fs"])
             c["oracle"] = o[:2]
             c["oracle_bt"] = o[2] if len(o) > 2 else None
             if ma is not None:
